@@ -1,6 +1,7 @@
 package main
 
 import (
+	"go/constant"
 	"go/token"
 	"go/types"
 	"sort"
@@ -651,54 +652,10 @@ func c06everyChunkCopied(c *Ctx, r *Result) {
 		r.Errorf("C06.8: readChunkedData no longer calls copyChunkToArray")
 		return
 	}
-	// the chunk loop: innermost loop header that dominates the copy
-	var hdr *ssa.BasicBlock
-	for _, b := range fn.Blocks {
-		isHeader := false
-		for _, p := range b.Preds {
-			if b.Dominates(p) {
-				isHeader = true // back edge p -> b
-			}
-		}
-		if isHeader && naturalLoop(b)[copyCall.Block()] {
-			if hdr == nil || hdr.Dominates(b) {
-				hdr = b
-			}
-		}
-	}
-	if hdr == nil {
+	bad, n, found := c.loopSkipsJustified(fn, copyCall.Block())
+	if !found {
 		r.Errorf("C06.8: chunk loop not found")
 		return
-	}
-	env := &polyEnv{c: c, fn: fn}
-	bad := ""
-	n := 0
-	loop := naturalLoop(hdr)
-	for _, b := range fn.Blocks {
-		if !loop[b] || b == hdr {
-			continue
-		}
-		for _, s := range b.Succs {
-			if s != hdr {
-				continue
-			}
-			// a back edge b -> hdr: either the copy dominates b (normal end of the iteration) or this is a skip
-			if copyCall.Block().Dominates(b) {
-				n++
-				continue
-			}
-			n++
-			// skip: justified only by a dominating fact start >= dims, i.e. scaled*chunksize - dimensions >= 0
-			ok := false
-			for _, f := range env.factsOnEdge(b, hdr) {
-				if f.Rel == ">=0" && (f.P.equal(P("chunksize*scaled", 1, "dims", -1)) || f.P.equal(P("chunksize*scaled", 1, "dimensions", -1))) {
-					ok = true
-				}
-			}
-			if !ok {
-				bad = c.InstrPos(b.Instrs[len(b.Instrs)-1])
-			}
-		}
 	}
 	if n == 0 {
 		r.Errorf("C06.8: no back edge of the chunk loop found")
@@ -730,4 +687,136 @@ func naturalLoop(h *ssa.BasicBlock) map[*ssa.BasicBlock]bool {
 		}
 	}
 	return loop
+}
+
+func isBeyondExtentFact(f polyFact) bool {
+	return f.Rel == ">=0" && (f.P.equal(P("chunksize*scaled", 1, "dims", -1)) || f.P.equal(P("chunksize*scaled", 1, "dimensions", -1)))
+}
+
+// beyondExtentEdge: on the edge from->to it is established that the chunk starts at or beyond the extent in some dimension
+// (scaled*chunkSize - dims >= 0), by a dominating test or by a bool helper that returns true only where that holds.
+func (c *Ctx) beyondExtentEdge(env *polyEnv, from, to *ssa.BasicBlock) bool {
+	for _, f := range env.factsOnEdge(from, to) {
+		if isBeyondExtentFact(f) {
+			return true
+		}
+	}
+	// dominating If blocks whose condition is a helper call
+	for _, b := range env.fn.Blocks {
+		ifi, ok := b.Instrs[len(b.Instrs)-1].(*ssa.If)
+		if !ok || b.Succs[0] == b.Succs[1] {
+			continue
+		}
+		var onTrue *ssa.BasicBlock
+		cond := ifi.Cond
+		pol := true
+		for {
+			if u, ok := cond.(*ssa.UnOp); ok && u.Op == token.NOT {
+				cond, pol = u.X, !pol
+				continue
+			}
+			break
+		}
+		call, ok := cond.(*ssa.Call)
+		if !ok {
+			continue
+		}
+		onTrue = b.Succs[0]
+		if !pol {
+			onTrue = b.Succs[1]
+		}
+		if !(b == from && onTrue == to) && !edgeDominates(b, onTrue, from) {
+			continue
+		}
+		if c.helperTrueMeansBeyondExtent(env, call) {
+			return true
+		}
+	}
+	return false
+}
+
+// helperTrueMeansBeyondExtent: call is a static call of a module function with a bool result, every `return true` of which is
+// dominated by the fact scaled*chunkSize - dims >= 0 read in the caller's terms (parameters renamed to the arguments).
+func (c *Ctx) helperTrueMeansBeyondExtent(env *polyEnv, call *ssa.Call) bool {
+	h := call.Call.StaticCallee()
+	if h == nil || h.Blocks == nil || !inModule(fnPkgPath(h)) || len(h.Params) != len(call.Call.Args) || h.Signature.Results().Len() != 1 {
+		return false
+	}
+	henv := &polyEnv{c: c, fn: h, rename: map[string]string{}}
+	for i, a := range call.Call.Args {
+		name := env.baseName(a)
+		if name == "" {
+			if ld, ok := isLoad(a); ok {
+				name = env.baseName(ld)
+			}
+		}
+		henv.rename[normName(h.Params[i].Name())] = name
+	}
+	n := 0
+	for _, ret := range returnsOf(h) {
+		k, ok := ret.Results[0].(*ssa.Const)
+		if !ok {
+			return false // computed result: not summarised
+		}
+		if !constant.BoolVal(k.Value) {
+			continue
+		}
+		n++
+		ok2 := false
+		for _, f := range henv.factsAt(ret.Block()) {
+			if isBeyondExtentFact(f) {
+				ok2 = true
+			}
+		}
+		if !ok2 {
+			return false
+		}
+	}
+	return n > 0
+}
+
+// loopSkipsJustified: in the outermost... innermost loop of fn that contains the block `sink` (where one listed chunk is
+// consumed), every back edge either lies behind the sink or skips the chunk on an edge that establishes "starts at or
+// beyond the extent". Returns the position of an unjustified skip, the number of back edges, and whether the loop was found.
+func (c *Ctx) loopSkipsJustified(fn *ssa.Function, sink *ssa.BasicBlock) (string, int, bool) {
+	var hdr *ssa.BasicBlock
+	for _, b := range fn.Blocks {
+		isHeader := false
+		for _, p := range b.Preds {
+			if b.Dominates(p) {
+				isHeader = true // back edge p -> b
+			}
+		}
+		if isHeader && naturalLoop(b)[sink] {
+			if hdr == nil || hdr.Dominates(b) {
+				hdr = b
+			}
+		}
+	}
+	if hdr == nil {
+		return "", 0, false
+	}
+	env := &polyEnv{c: c, fn: fn}
+	bad := ""
+	n := 0
+	loop := naturalLoop(hdr)
+	for _, b := range fn.Blocks {
+		if !loop[b] || b == hdr {
+			continue
+		}
+		for _, s := range b.Succs {
+			if s != hdr {
+				continue
+			}
+			n++
+			// a back edge b -> hdr: either the sink dominates b (normal end of the iteration) or this is a skip
+			if sink.Dominates(b) {
+				continue
+			}
+			if !c.beyondExtentEdge(env, b, hdr) {
+				bad = c.InstrPos(b.Instrs[len(b.Instrs)-1])
+			}
+		}
+	}
+	return bad, n, true
 }
